@@ -214,7 +214,7 @@ def mem_spec(order, nbytes, width, base='this.data', idx='offset'):
 
 def check_2448(ctx, u):
     R = 'C01-R4'
-    I = Interp(u)
+    I = BVExec(u)
     ms = methods_of(u, 'phosg::StringReader')
     for bits in (24, 48):
         nbytes = bits // 8
@@ -225,9 +225,13 @@ def check_2448(ctx, u):
             ctx.fn('StringReader::' + nm)
             I.notes = []
             p = params_of(f)[0]
-            v = I.eval_function(f, {})
-            if v is None:
-                ctx.bad(R, nm + '|lanes', f, 'cannot derive the lane map of %s' % nm)
+            try:
+                v = I.call(f, [], {}, bound={('canon', p['id']): p.get('name')})
+            except Unsupported as e:
+                ctx.undecided(R, nm + '|lanes', f, 'cannot derive the lane map of %s (%s)' % (nm, e))
+                continue
+            if not isinstance(v, BV):
+                ctx.undecided(R, nm + '|lanes', f, 'cannot derive the lane map of %s' % nm)
                 continue
             # the parameter is named `offset`; memory symbols are keyed by the index expression
             spec = mem_spec(order, nbytes, v.w, idx=p.get('name'))
@@ -278,47 +282,31 @@ def _returns_value_of(ret, call, u):
 def check_bits(ctx, u):
     R = 'C01-R5'
     I = Interp(u)
-    # ---- reader: bit n of the stream is bit 7-(n&7) of byte n>>3, accumulated MSB first
+    # ---- reader: bit n of the stream is bit 7-(n&7) of byte n>>3, accumulated MSB first.
+    # The whole function is executed abstractly (bit provenance; control flow is constant once
+    # size and start are fixed) for a spread of sizes and start offsets: result bit j must be
+    # stream bit start+size-1-j and every higher result bit must be 0.  Any loop form is accepted.
     f = u.func('phosg::BitReader::pread')[0]
     ctx.fn('BitReader::pread')
-    body = body_of(f)
-    loops = [x for x in walk(body) if x.get('kind') == 'ForStmt']
-    ctx.require(len(loops) == 1, 'BitReader::pread: expected one for loop')
-    init, cv, cond, inc, lb = for_parts(loops[0])
-    counter = next((x for x in walk(init) if x.get('kind') == 'VarDecl'), None) if init else None
-    ctx.require(counter is not None, 'BitReader::pread: loop counter not found')
     start_p, size_p = params_of(f)[0], params_of(f)[1]
-    c0 = int_value(kids(counter)[-1]) if kids(counter) else None
-    r = relation(cond, True) if cond else None
-    cond_ok = r is not None and ((ref_decl(r[0]) or {}).get('id') == counter['id'] and r[1] == '<' and (ref_decl(r[2]) or {}).get('id') == size_p['id'])
-    inc_ok = inc is not None and strip(inc).get('kind') == 'UnaryOperator' and strip(inc).get('opcode') == '++' and (ref_decl(strip(inc)['inner'][0]) or {}).get('id') == counter['id']
-    ctx.check(c0 == 0 and cond_ok and inc_ok, R, 'BitReader::pread|loop', loops[0], 'for (k = 0; k < size; k++)', 'loop does not run k = 0 .. size-1 in steps of one')
-    rets = [x for x in walk(body) if x.get('kind') == 'ReturnStmt']
-    acc = ref_decl(kids(rets[-1])[0]) if rets and kids(rets[-1]) else None
-    ctx.require(acc is not None, 'BitReader::pread: accumulator not found')
-    accv = u.by_id.get(acc['id'])
-    ctx.check(accv is not None and kids(accv) and int_value(kids(accv)[-1]) == 0, R, 'BitReader::pread|acc-init', accv or f, 'accumulator starts at 0', 'accumulator is not initialised to 0')
-    # The loop is unrolled abstractly (bit provenance, no execution) for a spread of sizes and
-    # start offsets: after `size` iterations result bit j must be stream bit start+size-1-j
-    # (stream bit n = bit 7-(n&7) of byte n>>3) and every higher result bit must be 0.
+    X = BVExec(u)
     bad_bits = []
     unsupported = None
-    aw = (width_of_type(dtype(accv)) or (64, False)) if accv else (64, False)
     sizes = range(1, 65) if ctx.tier == 'thorough' else (1, 2, 7, 8, 9, 15, 16, 17, 31, 32, 33, 47, 48, 56, 63, 64)
     starts = range(0, 16) if ctx.tier == 'thorough' else (0, 3, 13)
     ctx.extra['bitreader_unrolled'] = {'sizes': len(list(sizes)), 'start_offsets': len(list(starts))}
+    site = f
     for S in sizes:
         for start in starts:
-            env = {acc['id']: const_bv(0, aw[0], aw[1]), start_p['id']: const_bv(start, 64), size_p['id']: const_bv(S, 8)}
-            I.notes = []
+            X.notes = []
             try:
-                for k in range(S):
-                    env[counter['id']] = const_bv(k, (width_of_type(dtype(counter)) or (8, False))[0])
-                    I.exec_stmts([lb], env)
+                v = X.call(f, [], {}, bound={start_p['id']: const_bv(start, 64), size_p['id']: const_bv(S, 8)})
             except Unsupported as e:
                 unsupported = str(e)
                 break
-            v = env[acc['id']]
+            if not isinstance(v, BV):
+                unsupported = 'no value returned'
+                break
             want = []
             for j in range(v.w):
                 if j < S:
@@ -328,12 +316,14 @@ def check_bits(ctx, u):
                     want.append(0)
             bad = expect_lanes(v, want)
             if bad:
-                bad_bits.append('size=%d start=%d: %s%s' % (S, start, describe_mismatch(bad, 2), ('; ' + I.notes[0]) if I.notes else ''))
+                bad_bits.append('size=%d start=%d: %s%s' % (S, start, describe_mismatch(bad, 2), ('; ' + X.notes[0]) if X.notes else ''))
         if unsupported:
             break
-    ctx.require(unsupported is None, 'BitReader::pread: loop body outside the supported statement forms (%s)' % unsupported)
-    ctx.check(not bad_bits, R, 'BitReader::pread|msb-first', lb, 'for every size 1..64 sampled and three start offsets, result bit j = stream bit start+size-1-j (bit 7-(n&7) of byte n>>3), higher bits 0 (loop unrolled over bit provenance)',
-              'a read of `size` bits does not return the MSB-first value of the stream bits: %s' % '; '.join(bad_bits[:3]))
+    if unsupported:
+        ctx.undecided(R, 'BitReader::pread|msb-first', f, 'the function is outside the supported statement forms (%s)' % unsupported)
+    else:
+        ctx.check(not bad_bits, R, 'BitReader::pread|msb-first', f, 'for every size 1..64 sampled and three start offsets, result bit j = stream bit start+size-1-j (bit 7-(n&7) of byte n>>3), higher bits 0 (function executed over bit provenance)',
+                  'a read of `size` bits does not return the MSB-first value of the stream bits: %s' % '; '.join(bad_bits[:3]))
     # BitReader::read advances by size
     g = u.func('phosg::BitReader::read')[0]
     adv = [x for x in walk(body_of(g)) if x.get('kind') == 'CompoundAssignOperator' and x.get('opcode') == '+=' and canon(x['inner'][0]) == 'this.offset']
@@ -341,51 +331,45 @@ def check_bits(ctx, u):
     ok = len(adv) == 1 and len(calls) == 1 and canon(adv[0]['inner'][1]) == canon(call_args(calls[0])[1]) and canon(call_args(calls[0])[0]) == 'this.offset'
     ctx.check(ok, R, 'BitReader::read|advance', g, 'cursor advances by the number of bits read at the cursor', 'BitReader::read does not advance by the number of bits read')
 
-    # ---- writer: the bit written when u bits are unset lands at position u-1; a fresh byte starts at 0x80 with 7 unset
+    # ---- writer: write(v) is executed abstractly from every state (u = 0..7 unset bits in the last
+    # byte, whose unset bits are zero): with u == 0 a new byte with bit 7 = v is appended and 7 bits
+    # stay unset; otherwise bit u-1 of the last byte becomes v and u-1 bits stay unset.  This is the
+    # reader's convention (n-th bit of a byte is bit 7-n).  Any control-flow shape is accepted.
     w = u.func('phosg::BitWriter::write')[0]
     ctx.fn('BitWriter::write')
-    wb = body_of(w)
     vparam = params_of(w)[0]
-    pushes = [c for c in walk(wb) if c.get('kind') == 'CXXMemberCallExpr' and call_name(c) == 'push_back']
-    ors = [x for x in walk(wb) if x.get('kind') == 'CompoundAssignOperator' and x.get('opcode') == '|=']
-    decs = [x for x in walk(wb) if x.get('kind') == 'UnaryOperator' and x.get('opcode') == '--' and canon(x['inner'][0]) == 'this.last_byte_unset_bits']
-    sets = [x for x in walk(wb) if x.get('kind') == 'BinaryOperator' and x.get('opcode') == '=' and canon(x['inner'][0]) == 'this.last_byte_unset_bits']
-    ctx.require(len(pushes) == 1 and len(ors) == 1, 'BitWriter::write: expected one push_back and one |=')
-    # fresh byte
-    pb = pushes[0]
-    arg = strip(call_args(pb)[0])
-    fresh_ok = False
-    if arg.get('kind') == 'ConditionalOperator':
-        c, a, b = arg['inner'][:3]
-        fresh_ok = (ref_decl(c) or {}).get('id') == vparam['id'] and int_value(a) == 0x80 and int_value(b) == 0
-    facts_pb = [(canon(n), pol) for n, pol in atoms(path_facts(pb))]
-    in_else = any(('this.last_byte_unset_bits' in c) for c, pol in facts_pb)
-    set7 = [s for s in sets if int_value(s['inner'][1]) == 7 and enclosing(s, ('CompoundStmt',)) is enclosing(pb, ('CompoundStmt',))]
-    ctx.check(fresh_ok and in_else and len(set7) == 1, R, 'BitWriter::write|fresh-byte', pb, 'when no bit is unset: push_back(v ? 0x80 : 0) and 7 bits remain unset',
-              'fresh-byte branch is not push_back(v ? 0x80 : 0x00) followed by unset = 7')
-    # partial byte: unset decremented before the OR; OR mask = 1 << unset; guarded by v; applied to the last byte
-    o = ors[0]
-    dec_before = any(d in [x for s in preceding_statements(o) for x in walk(s)] for d in decs)
-    guarded_v = any((ref_decl(n) or {}).get('id') == vparam['id'] and pol for n, pol in atoms(path_facts(o)))
-    nonzero = False
-    for n, pol in atoms(path_facts(decs[0]) if decs else []):
-        r = relation(n, pol)
-        if r and canon(r[0]) == 'this.last_byte_unset_bits' and ((r[1] == '>' and int_value(r[2]) == 0) or (r[1] == '!=' and int_value(r[2]) == 0) or (r[1] == '>=' and int_value(r[2]) == 1)):
-            nonzero = True
-        if r is None and canon(n) == 'this.last_byte_unset_bits' and pol:
-            nonzero = True
-    target = canon(o['inner'][0])
-    target_ok = target in ('this.data[(this.data.size() - 1)]', 'this.data.back()')
-    mask_bad = []
-    for uu in range(0, 7):   # value after the decrement
-        env = {}
-        mask = I.eval(_subst_member(o['inner'][1], 'last_byte_unset_bits'), {('member', 'last_byte_unset_bits'): const_bv(uu, 8)})
-        mv = _eval_with_member(I, o['inner'][1], 'last_byte_unset_bits', uu)
-        if mv is None or (mv & 0xFF) != (1 << uu):
-            mask_bad.append((uu, mv))
-    ctx.check(dec_before and guarded_v and nonzero and target_ok and not mask_bad, R, 'BitWriter::write|partial-byte', o,
-              'with u bits unset: u is decremented, then bit u-1 of the last byte is set iff v (agrees with the reader: n-th bit of a byte is bit 7-n)',
-              'partial-byte branch: decrement-before-or=%s guarded-by-v=%s under-unset>0=%s target=%s mask-mismatches=%s' % (dec_before, guarded_v, nonzero, target, mask_bad[:3]))
+    vbit = BV(1, [('i', 'v', 0)])
+    for uu in range(0, 8):
+        last = BV(8, [0] * uu + [('i', 'last', i) for i in range(uu, 8)], False)
+        env0 = {vparam['id']: vbit, ('member', 'last_byte_unset_bits'): const_bv(uu, 8), ('vec', 'this.data'): [const_bv(0x5A, 8), last]}
+        X.notes = []
+        try:
+            envr = dict(env0)
+            envr[('vec', 'this.data')] = list(env0[('vec', 'this.data')])
+            X.run([body_of(w)], envr, 0)
+        except Unsupported as e:
+            ctx.undecided(R, 'BitWriter::write|state-%d' % uu, w, 'write() is outside the supported statement forms (%s)' % e)
+            continue
+        except Exception as e:   # _Ret
+            if e.__class__.__name__ != '_Ret':
+                raise
+        vec = envr[('vec', 'this.data')]
+        un = bv_const(envr[('member', 'last_byte_unset_bits')]) if isinstance(envr.get(('member', 'last_byte_unset_bits')), BV) else None
+        if uu == 0:
+            want_vec = [const_bv(0x5A, 8).b, last.b, [0] * 7 + [('i', 'v', 0)]]
+            want_un = 7
+        else:
+            nb = list(last.b)
+            nb[uu - 1] = ('i', 'v', 0)
+            want_vec = [const_bv(0x5A, 8).b, nb]
+            want_un = uu - 1
+        got_vec = [x.b[:8] for x in vec]
+        okw = got_vec == want_vec and un == want_un
+        why = ''
+        if not okw:
+            why = 'from the state "%d bit(s) unset" write(v) leaves %d byte(s), %s unset; last byte bits (LSB first) %s; expected %d byte(s), %d unset, last byte %s' % (
+                uu, len(vec), un, [cell_str(c) for c in got_vec[-1]] if got_vec else [], len(want_vec), want_un, [cell_str(c) for c in want_vec[-1]])
+        ctx.check(okw, R, 'BitWriter::write|state-%d' % uu, w, 'write(v) with %d unset bit(s): %s' % (uu, 'appends a byte whose bit 7 is v, 7 unset' if uu == 0 else 'bit %d of the last byte becomes v, %d unset' % (uu - 1, uu - 1)), why)
 
     # ---- truncate keeps exactly the first size bits
     t = u.func('phosg::BitWriter::truncate')[0]
